@@ -920,6 +920,12 @@ def rule_c19_output_roundtrip(prog: Program, col: Collector) -> None:
     stores = [e for e in mf.of_kind("store") if e.index == ("const", "run_type")]
     # ... or merged in as a display: args | {"run_type": ..} / {**args, "run_type": ..}
     stores += [r for r in mf.of_kind("return") for t in subterms(r.value) if t[0] == "dict" and any(k == ("const", "run_type") for k, _ in t[1])]
+    # ... or filtered out: {k: v for k, v in vars(args).items() if k != "func"}
+    from .common import comp_parts as _cp
+    filtered = [t for e in mf.events for v in e.data.values() if isinstance(v, tuple) for t in subterms(v)
+                if t[0] == "comp" and len(t) == 4 and len(t[3]) == 1 and any(c[0] == "cmp" and c[1] == "!=" and ("const", "func") in (c[2], c[3]) for c in t[3][0][2])]
+    real_pops = list(pops)
+    pops = pops or filtered
     col.check(bool(pops), meths["metadata"].where(), "run.save.Output.metadata", "the non-serialisable 'func' entry is dropped",
               construct="metadata-func", necessity="a function object cannot be stored in JSON faithfully")
     col.check(bool(stores), meths["metadata"].where(), "run.save.Output.metadata", "'run_type' is written",
@@ -929,7 +935,7 @@ def rule_c19_output_roundtrip(prog: Program, col: Collector) -> None:
     copies += [e for e in mf.calls() if is_global(e.func, "dict", "copy.copy", "copy.deepcopy") and len(e.args) == 1 and vars_call(e.args[0])]
     copies += [e for e in mf.events for v in e.data.values() if isinstance(v, tuple) for t in subterms(v)
                if t[0] == "dict" and any(k == ("star2",) and vars_call(x) for k, x in t[1])]
-    col.check(bool(copies) or not pops, meths["metadata"].where(), "run.save.Output.metadata",
+    col.check(bool(copies) or not real_pops, meths["metadata"].where(), "run.save.Output.metadata",
               "metadata works on a copy of vars(parsed_args) (the caller's namespace is not mutated)",
               construct="metadata-copy", necessity="popping 'func' from the live namespace breaks a second save of the same output")
     reads_rt = any(s == ("index", ("index", dparam, ("const", "metadata")), ("const", "run_type"))
